@@ -124,6 +124,33 @@ def audit(pid: str) -> dict:
             "raw_tail": text[-1500:] if discharged != len(names) else ""}
 
 
+def fs_imports(pid: str) -> list[str]:
+    """Fs modules that Fs/Props/<pid>.lean depends on (transitively), itself first."""
+    seen, todo = [], [f"Fs.Props.{pid}"]
+    while todo:
+        m = todo.pop()
+        if m in seen:
+            continue
+        seen.append(m)
+        f = LEAN / (m.replace(".", "/") + ".lean")
+        if f.exists():
+            todo += re.findall(r"^import (Fs\.[\w.]+)", f.read_text(), flags=re.M)
+    return seen
+
+
+def leancheck(pid: str) -> dict:
+    """Thorough tier: replay the compiled .olean files of the property's modules through `leanchecker`
+    (the toolchain's independent kernel re-checker)."""
+    mods = fs_imports(pid)
+    try:
+        p = subprocess.run(["lake", "env", "leanchecker", *mods], cwd=LEAN, capture_output=True, text=True, timeout=1800)
+    except FileNotFoundError:
+        return {"ran": False, "reason": "leanchecker not on PATH", "modules": mods}
+    except subprocess.TimeoutExpired:
+        raise Infra("leanchecker timed out")
+    return {"ran": True, "ok": p.returncode == 0, "modules": mods, "output_tail": (p.stdout + p.stderr)[-800:]}
+
+
 class Driver:
     """Persistent model driver (compiled `drv`, or `lake env lean --run Main.lean` if it did not link)."""
 
@@ -326,6 +353,13 @@ def prepare(chk: Check) -> bool:
         chk.violation(f"theorems not checked or using non-standard axioms: {bad}", {"theorems": bad, "raw": chk.audit["raw_tail"]},
                       broken=",".join(t["theorem"] for t in bad), failing_input=False)
         return False
+    if chk.tier == "thorough":
+        lc = leancheck(chk.pid)
+        chk.extra["leanchecker"] = lc
+        if lc.get("ran") and not lc["ok"]:
+            chk.violation("leanchecker rejects the compiled modules: " + lc["output_tail"], lc,
+                          broken="leanchecker", failing_input=False)
+            return False
     return True
 
 
